@@ -12,5 +12,6 @@ Definition gen_tables : tables := {|
   t_sym_dir := sym_dir;
   t_asym_rt := asym_rt;
   t_supported := supported_policies;
+  t_sess_cert := create_session_sends_certificate;
   t_sess_nonce_server := session_nonce_server;
   t_sess_nonce_client := session_nonce_client |}.
